@@ -119,12 +119,17 @@ def generate(tier, seed):
                         k += 1
                         if tier == "quick" and not (k % 11 == 0 or (tie and k % 3 == 0)):
                             continue
-                        cases.append(line_case(vd, start, stop, None, sp, adj, pix, "lattice-tie" if tie else "lattice"))
+                        cases.append(core.guarded(lambda: line_case(vd, start, stop, None, sp, adj, pix, "lattice-tie" if tie else "lattice"), {"fn": "line_case"}, "line_case"))
     # 2. sizes
     for a, b in [(0.0, 5.0), (-3.25, 2.5), (1e6, 1e6 + 7.125), (2.0, 2.0), (-1e-3, 1e-3)]:
         for n in range(1, 7):
             for pix in (False, True):
-                cases.append(line_case(vd, a, b, n, None, 0, pix, "size"))
+                cases.append(core.guarded(lambda: line_case(vd, a, b, n, None, 0, pix, "size"), {"fn": "line_case"}, "line_case"))
+    # 2b. node counts at which a recomputed last node (start + step * (n - 1)) misses the bound by an ulp
+    for a, b in [(0.0, 10.0), (0.0, 0.1), (0.0, 360.0), (-3.7, 11.3)]:
+        for n in [12, 23, 148, 170, 282, 295] + [rnd.randint(7, 300) for _ in range(4 if tier == "quick" else 40)]:
+            for pix in (False, True):
+                cases.append(core.guarded(lambda: line_case(vd, a, b, n, None, 0, pix, "size-large"), {"fn": "line_case"}, "line_case"))
     # 3. random floats, offsets, spacing larger than the extent
     nr = 300 if tier == "quick" else 3000
     for i in range(nr):
@@ -134,12 +139,12 @@ def generate(tier, seed):
         stop = start + ext
         sp = rnd.choice([rnd.uniform(ext / 40 if ext else 0.1, ext if ext else 1.0) if ext else 1.0,
                          (ext or 1.0) * rnd.choice([1.5, 2.0, 3.0, 10.0]), (ext or 1.0) / rnd.randint(1, 30)])
-        cases.append(line_case(vd, start, stop, None, sp, i % 2, bool((i // 2) % 2), "random"))
+        cases.append(core.guarded(lambda: line_case(vd, start, stop, None, sp, i % 2, bool((i // 2) % 2), "random"), {"fn": "line_case"}, "line_case"))
     # 4. invalid argument combinations
     for pix in (False, True):
-        cases.append(line_case(vd, 0.0, 5.0, 3, 1.0, 0, pix, "invalid"))
-        cases.append(line_case(vd, 0.0, 5.0, None, None, 0, pix, "invalid"))
-        cases.append(line_case(vd, 0.0, 5.0, None, 1.0, 2, pix, "invalid"))
+        cases.append(core.guarded(lambda: line_case(vd, 0.0, 5.0, 3, 1.0, 0, pix, "invalid"), {"fn": "line_case"}, "line_case"))
+        cases.append(core.guarded(lambda: line_case(vd, 0.0, 5.0, None, None, 0, pix, "invalid"), {"fn": "line_case"}, "line_case"))
+        cases.append(core.guarded(lambda: line_case(vd, 0.0, 5.0, None, 1.0, 2, pix, "invalid"), {"fn": "line_case"}, "line_case"))
     # 5. grids
     regions = [(0.0, 5.0, 0.0, 10.0), (-5.0, 0.0, 0.0, 5.0), (-2.5, 1.25, 3.0, 4.75), (1e6, 1e6 + 4.0, -1e6, -1e6 + 3.0),
                (0.0, 0.0, 0.0, 1.0), (-0.5, 0.5, -0.25, 0.25)]
@@ -153,7 +158,7 @@ def generate(tier, seed):
                     g += 1
                     if tier == "quick" and g % 3:
                         continue
-                    cases.append(grid_case(vd, reg, shp, None, 0, pix, extra, mesh, "grid-shape"))
+                    cases.append(core.guarded(lambda: grid_case(vd, reg, shp, None, 0, pix, extra, mesh, "grid-shape"), {"fn": "grid_case"}, "grid_case"))
         for sp in spacings:
             for adj in (0, 1):
                 for pix in (False, True):
@@ -163,12 +168,12 @@ def generate(tier, seed):
                             continue
                         if reg[1] - reg[0] > 0 and (reg[1] - reg[0]) / min(np.atleast_1d(sp)) > 40:
                             continue
-                        cases.append(grid_case(vd, reg, None, sp, adj, pix, extra, mesh, "grid-spacing"))
+                        cases.append(core.guarded(lambda: grid_case(vd, reg, None, sp, adj, pix, extra, mesh, "grid-spacing"), {"fn": "grid_case"}, "grid_case"))
     for reg in [(5.0, 0.0, 0.0, 1.0), (0.0, 1.0, 2.0, 1.0), (0.0, 1.0, 0.0), (0.0, 1.0, 0.0, 1.0, 2.0)]:
-        cases.append(grid_case(vd, reg, (3, 3), None, 0, False, None, True, "grid-invalid"))
-    cases.append(grid_case(vd, (0.0, 1.0, 0.0, 1.0), (3, 3), 0.5, 0, False, None, True, "grid-invalid"))
-    cases.append(grid_case(vd, (0.0, 1.0, 0.0, 1.0), None, None, 0, False, None, True, "grid-invalid"))
-    cases.append(grid_case(vd, (0.0, 1.0, 0.0, 1.0), None, 0.5, 2, False, None, True, "grid-invalid"))
+        cases.append(core.guarded(lambda: grid_case(vd, reg, (3, 3), None, 0, False, None, True, "grid-invalid"), {"fn": "grid_case"}, "grid_case"))
+    cases.append(core.guarded(lambda: grid_case(vd, (0.0, 1.0, 0.0, 1.0), (3, 3), 0.5, 0, False, None, True, "grid-invalid"), {"fn": "grid_case"}, "grid_case"))
+    cases.append(core.guarded(lambda: grid_case(vd, (0.0, 1.0, 0.0, 1.0), None, None, 0, False, None, True, "grid-invalid"), {"fn": "grid_case"}, "grid_case"))
+    cases.append(core.guarded(lambda: grid_case(vd, (0.0, 1.0, 0.0, 1.0), None, 0.5, 2, False, None, True, "grid-invalid"), {"fn": "grid_case"}, "grid_case"))
     # 6. shape_to_spacing inverts the shape
     for reg in [(0.0, 10.0, 20.0, 30.0), (-7.5, 0.25, 1.0, 1.5), (1e6, 1e6 + 3.0, 0.0, 7.0), (0.1, 0.7, -0.3, 0.9)]:
         for shp in [(2, 2), (11, 11), (3, 7), (21, 5), (1, 1), (1, 6), (9, 1), (13, 10)]:
@@ -176,23 +181,23 @@ def generate(tier, seed):
                 if not pix and min(shp) < 2:
                     continue
                 for adj in (0, 1):
-                    cases.append(s2s_case(vd, reg, shp, pix, adj, "shape_to_spacing"))
+                    cases.append(core.guarded(lambda: s2s_case(vd, reg, shp, pix, adj, "shape_to_spacing"), {"fn": "s2s_case"}, "s2s_case"))
     nrs = 40 if tier == "quick" else 400
     for i in range(nrs):
         w = rnd.uniform(-100, 100)
         s = rnd.uniform(-100, 100)
         reg = (w, w + rnd.uniform(0.5, 50), s, s + rnd.uniform(0.5, 50))
         shp = (rnd.randint(2, 40), rnd.randint(2, 40))
-        cases.append(s2s_case(vd, reg, shp, bool(i % 2), (i // 2) % 2, "shape_to_spacing-random"))
+        cases.append(core.guarded(lambda: s2s_case(vd, reg, shp, bool(i % 2), (i // 2) % 2, "shape_to_spacing-random"), {"fn": "s2s_case"}, "s2s_case"))
     # 7. profiles
     for p1, p2 in [((1.0, 10.0), (1.0, 20.0)), ((1.0, 5.0), (5.0, 5.0)), ((0.0, 0.0), (3.0, 4.0)), ((2.5, -1.0), (-4.0, 7.5)),
                    ((1e5, 1e5), (1e5 + 3.0, 1e5 - 4.0)), ((1.0, 1.0), (-2.0, -3.0))]:
         for size in (2, 3, 5, 11):
-            cases.append(profile_case(vd, p1, p2, size, "profile"))
+            cases.append(core.guarded(lambda: profile_case(vd, p1, p2, size, "profile"), {"fn": "profile_case"}, "profile_case"))
     for i in range(20 if tier == "quick" else 200):
         p1 = (rnd.uniform(-50, 50), rnd.uniform(-50, 50))
         p2 = (rnd.uniform(-50, 50), rnd.uniform(-50, 50))
-        cases.append(profile_case(vd, p1, p2, rnd.randint(2, 12), "profile-random"))
+        cases.append(core.guarded(lambda: profile_case(vd, p1, p2, rnd.randint(2, 12), "profile-random"), {"fn": "profile_case"}, "profile_case"))
     return cases
 
 
